@@ -58,7 +58,9 @@ def nontrivial(c):
 
 CFG = {
     "module": "MC_Placement",
-    "mc_cfg": {"quick": "MC_Placement_quick.cfg", "thorough": "MC_Placement_thorough.cfg"},
+    # quick: every body up to 6 tokens, and every body up to 8 tokens that begins with an if statement (no goto / label tokens):
+    # `if c { s } else { loop }` has 8 tokens
+    "mc_cfg": {"quick": ["MC_Placement_quick.cfg", "MC_Placement_ifelse_quick.cfg"], "thorough": "MC_Placement_thorough.cfg"},
     "workers": 8,
     "prepare": prepare,
     "compare": compare,
